@@ -218,9 +218,16 @@ def rule_phis_and_locals(ctx):
     f = find_fn(SI, "ensure_phi_argument")
     if f is not None:
         push = list(method_calls(f["body"], "push"))
-        ok = len(push) == 1 and render(strip(push[0]["args"][0])).replace(" ", "") == "name.with_version(env_version)"
+        ok = False
         cs = [fact_str(c).replace(" ", "") for c in (conditions_to(f["body"], push[0]) or [])] if push else []
-        ok = ok and any(c == "(letSome(env_version)=env.get_current_version(name))" for c in cs)
+        envp = (sgrep.params(f) or [None])[0]
+        if len(push) == 1 and envp:
+            b = {}
+            if sgrep.match(sgrep.pattern("__n.with_version(__v)"), push[0]["args"][0], b) and b["__n"] in ("var", "name"):
+                # the version pushed is the one bound by `Some(v) = env.get_current_version(name)` on the way to the push
+                for c in conditions_to(f["body"], push[0]) or []:
+                    if c[0] == "iflet" and c[3] and render(c[1]).replace(" ", "") == "Some(%s)" % b["__v"] and sgrep.match(sgrep.pattern("%s.get_current_version(%s)" % (envp, b["__n"])), c[2], {}):
+                        ok = True
         ctx.check(R, "ensure_phi_argument/argument-is-current-version", ok, "push under %s" % cs, site(SI, f))
     # Statement::insert_ssa_variables: Substitution arm
     f = None
@@ -263,7 +270,7 @@ def rule_phis_and_locals(ctx):
             for i, a in enumerate(asg):
                 cs = [fact_str(c).replace(" ", "") for c in (conditions_to(body, a) or [])]
                 ok = ("!!env.is_local(%s)" % nm) in cs or ("env.is_local(%s)" % nm) in cs
-                cur = any(c.startswith("matchenv.get_current_version(%s)=>" % nm) for c in cs)
+                cur = any(c.startswith("matchenv.get_current_version(%s)=>" % nm) or c.endswith("=env.get_current_version(%s))" % nm) for c in cs)
                 rhs = render(strip(a["r"])).replace(" ", "") == "%s.with_version(version)" % nm
                 ctx.check(R, "visit_expression/%s/write%d/only-locals-current-version" % (variant, i + 1), ok and cur and rhs, "versioned under %s" % cs, site(SI, a))
 
@@ -391,7 +398,10 @@ def rule_declarations(ctx):
         if "VariableType::Local" in arg and "parameters" in arg:
             ctx.ok(R, "update_declarations/parameter-declaration", arg[:80], site(SI, a))
         elif any("matches!" in c or "VariableType::Local" in c for c in cs if not c.startswith("!")):
-            ctx.check(R, "update_declarations/local-declaration-versioned", "name.with_version(version)" in arg, arg[:100], site(SI, a))
+            loopvars = [render(c[2]).replace("&", "").strip() for c in (conditions_to(f["body"], a) or []) if c[0] == "loop" and c[1] == "for"]
+            lenv_a = sgrep.lets(f["body"])
+            okv = any(sgrep.has(a["args"][0], "__n.with_version(%s)" % lv, lenv_a) or any(sgrep.match(sgrep.pattern("__n.with_version(%s)" % lv), lenv_a.get(x["path"], {"k": "?"}), {}) for x in walk(a["args"][0]) if x["k"] == "Path") for lv in loopvars)
+            ctx.check(R, "update_declarations/local-declaration-versioned", okv, arg[:100], site(SI, a))
         else:
             ctx.check(R, "update_declarations/signals-and-components-unversioned", arg.startswith("&Declaration::new(name,"), arg[:100], site(SI, a))
 
